@@ -441,7 +441,7 @@ pub fn run(ctx: &mut Ctx) {
 pub fn replay(ctx: &mut Ctx, d: &J) -> Option<()> {
     let f = fmt_of(d)?;
     if d.get("extreme").is_some() {
-        // (the extreme-size family is re-run as a whole by the check itself)
+        super::rerun_fixed(ctx);
         return Some(());
     }
     let x = lexgen::lex_from_json(d.get("lexical")?)?;
